@@ -580,6 +580,17 @@ class World:
         for a in alts:
             if a.op == "call" and a.info.endswith("FromResidual::from_residual"):
                 continue
+            # Option / Result combinators that pass the payload through: x.ok(), x.filter(p), x.ok_or(e)
+            if a.op == "call" and depth < 8 and a.args and self.callee_body(a) is None:
+                if a.info == "std::option::Option::filter" and which == "some":
+                    keep.extend(self._ok_alts(a.args[0], "some", depth + 1, expand_ws, True))
+                    continue
+                if a.info == "std::result::Result::ok" and which == "some":
+                    keep.extend(self._ok_alts(a.args[0], "ok", depth + 1, expand_ws, True))
+                    continue
+                if a.info in ("std::option::Option::ok_or", "std::option::Option::ok_or_else") and which == "ok":
+                    keep.extend(self._ok_alts(a.args[0], "some", depth + 1, expand_ws, True))
+                    continue
             if a.op == "adt" and a.info[1] in ("Ok", "Err", "Some", "None") and a.info[0].split("::")[-1] in ("Result", "Option"):
                 if (which == "ok" and a.info[1] == "Ok") or (which == "some" and a.info[1] == "Some"):
                     keep.append((a.args[0], True))
